@@ -375,3 +375,14 @@ def objdump_of(elf: bytes, sections=None, style="att"):
         _OBJ_CACHE.clear()
     _OBJ_CACHE[key] = (rc, out)
     return rc, out
+
+
+RULE_NAMES = ["rule.yaml", "rule.yaml", "rules/my rule.yaml", "r.yml", "r\u00e8gle.yaml", "deep/er/dir/rule.yaml", "rule"]
+ASM_NAMES = ["in.s", "in.s", "dir with space/in put.s", "sub/listing.s", "dump.txt", "in"]
+BIN_NAMES = ["in.bin", "in.o", "bin dir/a b.o", "prog", "sub/lib.so.1", "caf\u00e9.o"]
+MACRO_DIRS = ["macros", "macros", "my macros", "m/acro"]
+
+
+def pick_names(rng):
+    """File names a user could plausibly use: sub-directories, spaces, non-ASCII, no extension."""
+    return {"rule": rng.choice(RULE_NAMES), "asm": rng.choice(ASM_NAMES), "bin": rng.choice(BIN_NAMES), "macro_dir": rng.choice(MACRO_DIRS)}
